@@ -1,8 +1,9 @@
 /-
 Model of layer attribution (C05):
   artifact/image/layerscanning/trace/trace.go   PopulateLayerDetails (backwards loop, `(location, index)`
-                                                cache, Stat-not-exist branch, filesExistInLayer skip, break
-                                                on an extraction error), areLocationsEqual
+                                                cache, Stat-not-exist branch, filesExistInLayer skip, a failed
+                                                re-extraction leaves the package without layer details),
+                                                areLocationsEqual
   artifact/image/layerscanning/image/image.go   initializeChainLayers / validateHistory (history ↔ layers)
   scalibr.go                                    ScanContainer (final view scanned, then the trace)
 
@@ -14,26 +15,33 @@ namespace Scalibr.Trace
 
 abbrev Pkg := Nat
 
-inductive Op | keep | write (pkgs : List Pkg) | delete
+/-- what a chain layer does to one package-list location: nothing, (re)write it as a regular file,
+replace it by a symlink to a list with these packages (the target lives elsewhere and is not touched
+again), delete it (whiteout) -/
+inductive Op | keep | write (pkgs : List Pkg) | link (pkgs : List Pkg) | delete
 deriving DecidableEq, Repr
 
 /-- one file's life over the chain layers, layer 0 first -/
 abbrev History := List Op
 
-/-- content of the file after applying a layer: `none` = absent (never written, or whiteout) -/
+/-- content of the file after applying a layer: `none` = absent (never written, or whiteout). A symlink
+is read through (`chainLayer.FS()` resolves it), so the location holds the target's packages. -/
 def applyOp (cur : Option (List Pkg)) : Op → Option (List Pkg)
   | .keep => cur
   | .write ps => some ps
+  | .link ps => some ps
   | .delete => none
 
 /-- the file in the image-up-to-layer-`i` view (`chainLayers[i].FS()`) -/
 def viewAt (h : History) (i : Nat) : Option (List Pkg) := (h.take (i+1)).foldl applyOp none
 
-/-- `filesExistInLayer`: layer `i`'s OWN diff has the file (`Layer.FS().Stat` succeeds; a whiteout
-node answers not-exist) -/
+/-- `filesExistInLayer`: layer `i`'s OWN diff has an entry at the location (`Layer.FS().Stat` succeeds;
+the layer's file system does not follow symlinks, so a symlink entry counts; a whiteout node answers
+not-exist) -/
 def inDiff (h : History) (i : Nat) : Bool :=
   match h[i]? with
   | some (.write _) => true
+  | some (.link _) => true
   | _ => false
 
 /-- the extraction cache `locationIndexToPackages`, keyed by (location, layer index) only -/
@@ -42,49 +50,65 @@ abbrev Cache := Nat × Nat → Option (List Pkg)
 def Cache.empty : Cache := fun _ => none
 def Cache.insert (c : Cache) (k : Nat × Nat) (v : List Pkg) : Cache := fun k' => if k' = k then some v else c k'
 
+/-- state shared by all packages: the cache, and how many `filesystem.Run` calls the trace has made -/
+structure St where
+  cache : Cache
+  runs : Nat
+
+def St.empty : St := ⟨Cache.empty, 0⟩
+
+/-- `filesystem.Run` inside the trace can only fail through the context (ErrorOnFSErrors and MaxInodes
+do not reach it): `cancelAt = some k` means the context is cancelled once `k` runs have been made, so
+run number `k` (0-based) and all later ones fail; `none` = never cancelled. -/
+def cancelled (cancelAt : Option Nat) (runs : Nat) : Bool :=
+  match cancelAt with
+  | some k => decide (k ≤ runs)
+  | none => false
+
 inductive Fetch
-  | pkgs (ps : List Pkg) (c : Cache)   -- oldPackages determined (and cached)
+  | pkgs (ps : List Pkg) (s : St)      -- oldPackages determined (and cached)
   | skip                               -- `continue`: file exists in the view but not in this layer's diff
-  | err                                -- filesystem.Run returned an error: `break`
+  | err                                -- filesystem.Run returned an error
 deriving Inhabited
 
 /-- one iteration's "what were the packages of this file in view `i`" -/
-def fetch (h : History) (runErr : Nat → Bool) (f i : Nat) (c : Cache) : Fetch :=
-  match c (f, i) with
-  | some ps => .pkgs ps c
+def fetch (h : History) (cancelAt : Option Nat) (f i : Nat) (s : St) : Fetch :=
+  match s.cache (f, i) with
+  | some ps => .pkgs ps s
   | none =>
     match viewAt h i with
-    | none => .pkgs [] (c.insert (f, i) [])                -- Stat: fs.ErrNotExist → no packages
+    | none => .pkgs [] ⟨s.cache.insert (f, i) [], s.runs⟩             -- Stat: fs.ErrNotExist → no packages
     | some ps =>
       if inDiff h i then
-        (if runErr i then .err else .pkgs ps (c.insert (f, i) ps))   -- re-extract view i
+        (if cancelled cancelAt s.runs then .err
+         else .pkgs ps ⟨s.cache.insert (f, i) ps, s.runs + 1⟩)        -- re-extract view i
       else .skip
 
 /-- `for i := len-2; i >= 0; i--` for one package: `cnt = i + 1`, `last = lastScannedLayerIndex`.
-Returns the index into `chainLayerDetailsList` and the cache. -/
-def loop (h : History) (runErr : Nat → Bool) (f : Nat) (p : Pkg) : (cnt : Nat) → (last : Nat) → Cache → Nat × Cache
-  | 0, _, c => (0, c)                                      -- !foundOrigin → chainLayerDetailsList[0]
-  | i+1, last, c =>
-    match fetch h runErr f i c with
-    | .err => (0, c)                                       -- break → !foundOrigin → layer 0
-    | .skip => loop h runErr f p i last c
-    | .pkgs ps c' =>
-      if ps.contains p then loop h runErr f p i i c'       -- lastScannedLayerIndex = i
-      else (last, c')                                      -- origin = lastScannedLayerIndex; break
+Returns the index into `chainLayerDetailsList` (`none`: LayerDetails stays unset) and the state. -/
+def loop (h : History) (cancelAt : Option Nat) (f : Nat) (p : Pkg) : (cnt : Nat) → (last : Nat) → St → Option Nat × St
+  | 0, _, s => (some 0, s)                                 -- !foundOrigin → chainLayerDetailsList[0]
+  | i+1, last, s =>
+    match fetch h cancelAt f i s with
+    | .err => (none, s)                                    -- traceFailed: the package gets no layer details
+    | .skip => loop h cancelAt f p i last s
+    | .pkgs ps s' =>
+      if ps.contains p then loop h cancelAt f p i i s'     -- lastScannedLayerIndex = i
+      else (some last, s')                                 -- origin = lastScannedLayerIndex; break
 
 /-- the trace of one package of file `f` -/
-def traceC (h : History) (runErr : Nat → Bool) (f : Nat) (p : Pkg) (c : Cache) : Nat × Cache :=
-  loop h runErr f p (h.length - 1) (h.length - 1) c
+def traceC (h : History) (cancelAt : Option Nat) (f : Nat) (p : Pkg) (s : St) : Option Nat × St :=
+  loop h cancelAt f p (h.length - 1) (h.length - 1) s
 
-/-- without a cache (each package starts from an empty one) -/
-def trace (h : History) (p : Pkg) : Nat := (traceC h (fun _ => false) 0 p Cache.empty).1
+/-- without a cache and without cancellation -/
+def trace (h : History) (p : Pkg) : Option Nat := (traceC h none 0 p St.empty).1
 
-/-- `for _, pkg := range inventory.Packages`: the cache is shared by all packages of all files -/
-def populate (img : Nat → History) (runErr : Nat → Bool) : List (Nat × Pkg) → Cache → List Nat
+/-- `for _, pkg := range inventory.Packages`: cache and context are shared by all packages of all files -/
+def populate (img : Nat → History) (cancelAt : Option Nat) : List (Nat × Pkg) → St → List (Option Nat)
   | [], _ => []
-  | (f, p) :: rest, c =>
-    let r := traceC (img f) runErr f p c
-    r.1 :: populate img runErr rest r.2
+  | (f, p) :: rest, s =>
+    let r := traceC (img f) cancelAt f p s
+    r.1 :: populate img cancelAt rest r.2
 
 /-! ### history entries ↔ layers ↔ chain-layer indices (`initializeChainLayers`) -/
 
@@ -134,5 +158,9 @@ def chainHistory (cms : List ChainMeta) (layerOps : List Op) : History :=
 /-- `LayerDetails{Index, DiffID (by layer ordinal), Command}` reported for origin index `o` -/
 def details (cms : List ChainMeta) (o : Nat) : Option (Nat × Option Nat × String) :=
   (cms[o]?).map fun cm => (o, cm.layer, cm.cmd)
+
+/-- `Package.LayerDetails` after the trace: `none` = left unset -/
+def detailsOpt (cms : List ChainMeta) (o : Option Nat) : Option (Nat × Option Nat × String) :=
+  o.bind (details cms)
 
 end Scalibr.Trace
